@@ -44,4 +44,5 @@ MUTANTS = [
     # ------------------------------------------------------------------ query path / sessions
     # ------------------------------------------------------------------ stable hash
     # ------------------------------------------------------------------ interning
+    # ------------------------------------------------------------------ lock table
 ]
